@@ -76,6 +76,7 @@ def _work(job):
             con = reg.contract(qual)
             if con is None:
                 raise OutOfSubset("no contract registered for %s" % qual)
+            eng.max_paths = getattr(con, "max_paths", None) or eng.max_paths
             if hooks_mod:
                 importlib.import_module(hooks_mod).attach(eng, reg, qual)
             try:
